@@ -123,14 +123,26 @@ bool exec_apply(ExecCtx &c) {
             using V = std::decay_t<decltype(v)>;
             if constexpr (V::spline_order <= MAXFACT) {
               std::optional<SpOp<V::spline_order>> tmp;
-              libcall(out, [&] { tmp.emplace(v); });
+              // the operator takes its spline by value: from a const or non-const
+              // lvalue (copied) or from an xvalue (the caller gives the spline up)
+              std::optional<Grid> g0;
+              {
+                sim::Exempt e;
+                g0.emplace(v.getSupport().getGrid());
+              }
+              const int cv = value_cat(c, vs, 0, true);
+              libcall(out, [&] { as_cat(cv, v, [&](auto &&vv) { tmp.emplace(SIM_FWD(vv)); }); });
               if (tmp) {
                 sim::Exempt e;
                 P.o[dst].emplace(std::in_place_type<SpOp<V::spline_order>>, std::move(*tmp));
-                P.og[dst].emplace(v.getSupport().getGrid());
+                P.og[dst].emplace(*g0);
                 P.osrc[dst] = srcslot;
                 P.osrc_dirty[dst] = false;
                 out.target = SLOT_O0 + dst;
+              }
+              {
+                sim::Exempt e;
+                g0.reset();
               }
               sim::LibRegion lr;
               tmp.reset();
